@@ -323,26 +323,36 @@ class SymReal(_Num):
         return "SymReal(%s)" % (self.t,)
 
 
+HYPOT_LIGHT = [False]
+
+
 class SymHypot(SymReal):
     """Result of hypot(a, b) (+ an offset): the non-negative h with h*h == sq.
 
     Comparisons are encoded polynomially (h <= c  <=>  c >= 0 and sq <= c*c) so that no square-root
     variable reaches the solver; any other use materialises the fresh variable h with its contract.
     """
-    __slots__ = ("sq", "off", "_mat")
+    __slots__ = ("sq", "off", "_mat", "ab")
 
-    def __init__(self, sq, off=None):
+    def __init__(self, sq, off=None, ab=None):
         self.sq = sq
         self.off = off
         self._mat = None
+        self.ab = ab
 
     @property
     def t(self):
         if self._mat is None:
             ctx = core.cur()
-            ctx.nonlinear = True
             h = z3.Real(ctx.fresh_name("hyp"))
-            ctx.assume_expr(z3.And(h >= 0, h * h == self.sq))
+            if HYPOT_LIGHT[0] and self.ab is not None:
+                ta, tb = self.ab
+                aa = z3.If(ta >= 0, ta, -ta)
+                bb = z3.If(tb >= 0, tb, -tb)
+                ctx.assume_expr(z3.And(h >= aa, h >= bb, h <= aa + bb))
+            else:
+                ctx.nonlinear = True
+                ctx.assume_expr(z3.And(h >= 0, h * h == self.sq))
             self._mat = h if self.off is None else z3.simplify(h + self.off)
         return self._mat
 
@@ -350,7 +360,7 @@ class SymHypot(SymReal):
         if self._mat is not None:
             return None
         off = d if self.off is None else z3.simplify(self.off + d)
-        return SymHypot(self.sq, off)
+        return SymHypot(self.sq, off, self.ab)
 
     def __add__(self, o):
         ot = None if isinstance(o, SymHypot) else to_real(o)
